@@ -190,6 +190,12 @@ func (d *Decoder) DecodeLength() (uint64, error) {
 	if err != nil {
 		return 0, err
 	}
+	// every element of a sequence or dictionary occupies at least one byte, so a
+	// length prefix larger than the remaining input can never be satisfied; reject
+	// it here instead of letting the caller allocate an attacker-chosen size
+	if length > uint64(d.buf.Len()) {
+		return 0, fmt.Errorf("length prefix %d exceeds the %d remaining bytes", length, d.buf.Len())
+	}
 	cLog(Yellow, "Slice Length: %v", length)
 	return length, nil
 }
